@@ -602,7 +602,7 @@ class TreeMod(roundtrip.RTMod):
                         sub = rowanmodel.RowanMod.adapter(self, I, s, m, items, args, n)
                         out.extend(sub)
                 return out
-        if raw0 is not None and raw0[0] == "abs" and raw0[1] in ("siter", "liveiter", "lazy", "svec") and "Iterator" in c and m in ("skip", "chain", "rev", "take"):
+        if raw0 is not None and raw0[0] == "abs" and raw0[1] in ("siter", "liveiter", "lazy", "svec") and "Iterator" in c and m in ("skip", "chain", "rev", "take", "flatten"):
             outs = []
             srcs = [(list(raw0[2][raw0[3]:]), st)] if raw0[1] == "siter" else ([(list(raw0[2]), st)] if raw0[1] == "svec" else self.drain(I, st, raw0, n))
             for items, s in srcs:
@@ -617,6 +617,21 @@ class TreeMod(roundtrip.RTMod):
                     outs.append((OK, ("abs", "siter", tuple(items[k[1]:] if m == "skip" else items[:k[1]]), 0), s))
                 elif m == "rev":
                     outs.append((OK, ("abs", "siter", tuple(reversed(items)), 0), s))
+                elif m == "flatten":
+                    flat, ok_ = [], True
+                    for it in items:
+                        it = I.deref_val(s, it)
+                        if it[0] == "abs" and it[1] == "svec":
+                            flat += list(it[2])
+                        elif it[0] == "abs" and it[1] == "siter":
+                            flat += list(it[2][it[3]:])
+                        elif it[0] == "enum" and it[1] == SOME:
+                            flat.append(it[2][0])
+                        elif it[0] == "enum" and it[1] == NONE:
+                            pass
+                        else:
+                            ok_ = False
+                    outs.append((OK, ("abs", "siter", tuple(flat), 0) if ok_ else unk("flatten"), s))
                 else:
                     other = I.deref_val(s, args[1])
                     if other[0] == "abs" and other[1] == "siter":
